@@ -10,11 +10,35 @@ use core::cmp::Ordering;
 use vstd::std_specs::iter::IteratorSpec;
 use vstd::std_specs::core::IndexSpec;
 use vstd::std_specs::cmp::{OrdSpec, PartialOrdSpec, PartialEqSpec};
-verus! {
+use std::cell::RefCell;
 
 //@file IDX rustemo-compiler/src/index.rs
 //@file GRM rustemo-compiler/src/grammar/mod.rs
 //@file TBL rustemo-compiler/src/table/mod.rs
+
+// LRItem keeps its real derives (BTreeSet<LRItem> needs Ord; the derived Ord/PartialOrd compare every field, the
+// hand-written PartialEq only prod and position) -- code Verus does not take -- so the definition and the PartialEq impl
+// are placed outside verus!{} and the type is made known, fields visible, through external_type_specification.
+//@allow external_type_specification LRItem: real definition (with its derives) outside verus!{}, structure visible to Verus (not opaque)
+//@struct TBL LRItem derive=Eq,Clone,PartialOrd,Ord
+//@end
+//@impl TBL /^impl PartialEq for LRItem/
+//@  fn eq outside
+//@end
+verus! {
+
+#[verifier::external_type_specification]
+pub struct ExLRItem(LRItem);
+
+// std::cell::RefCell (the type of LRItem::follow): opaque.  Its content is read in the closure range only through the
+// expression `item.follow.borrow().iter()` (R-XEXPR below).
+//@allow external_type_specification RefCell: opaque std type of the field LRItem::follow
+//@allow external_body RefCell: opaque type
+//@allow accept_recursive_types RefCell<T> holds a T (std type, opaque here)
+#[verifier::accept_recursive_types(T)]
+#[verifier::external_type_specification]
+#[verifier::external_body]
+pub struct ExRefCell<T: ?Sized>(RefCell<T>);
 
 //@allow assume_specification <&BTreeSet as IntoIterator>::into_iter has the contract vstd gives BTreeSet::iter (std dependency)
 
@@ -87,7 +111,7 @@ impl<T> vstd::std_specs::core::IndexSpecImpl<SymbolIndex> for SymbolVec<T> {
 
 // ---- ProdVec: text of create_index!(ProdIndex, ProdVec) ---------------------------------------------------------------
 //@macro PRD IDX create_index invoked_in=IDX index=ProdIndex collection=ProdVec
-//@struct PRD ProdIndex derive=Copy,Clone
+//@struct PRD ProdIndex derive=Copy,Clone,PartialEq,Eq,PartialOrd,Ord
 //@end
 //@struct PRD ProdVec
 //@end
@@ -147,7 +171,7 @@ pub uninterp spec fn rhs_syms(p: &Production) -> Seq<SymbolIndex>;
 //@end
 //@struct GRM Terminal fields=idx
 //@end
-//@struct GRM NonTerminal fields=-
+//@struct GRM NonTerminal fields=productions
 //@end
 
 //@struct GRM Grammar fields=productions,terminals,nonterminals,empty_index
@@ -378,6 +402,141 @@ pub open spec fn first_table_ok(g: &Grammar, fs: Seq<Set<SymbolIndex>>) -> bool 
 //@  |                     assert(fs_view(&first_sets) =~= before);
 //@  |                 }
 //@  |             }
+//@end
+
+
+// ---- C01: LR(1) closure -- the lookahead (follow) set of every item one closure pass creates -----------------------------
+// The statements reach Verus through R-LIFT (tools/lift.py, closure_block): the `for item in &self.items { .. }` statement
+// of LRState::closure, verbatim.
+//@macro ITM IDX create_index invoked_in=TBL index=ItemIndex collection=ItemVec
+//@struct ITM ItemIndex derive=Copy,Clone
+//@end
+//@struct ITM ItemVec
+//@end
+//@impl ITM /^impl < 'a , T > IntoIterator for & 'a ItemVec < T >/
+//@  type Item
+//@  type IntoIter
+//@  fn into_iter ret=r
+//@  |                 ensures r.remaining().len() == self.0@.len(),
+//@  |                     forall|i: int| 0 <= i < self.0@.len() ==> *r.remaining()[i] == self.0@[i],
+//@  |                     r.decrease() is Some,
+//@end
+impl<T> vstd::std_specs::core::IndexSpecImpl<ProdIndex> for ProdVec<T> {
+    open spec fn index_req(&self, index: &ProdIndex) -> bool { index.0 < self.0@.len() }
+}
+//@impl PRD /^impl < T > Index < ProdIndex > for ProdVec < T >/
+//@  type Output
+//@  fn index ret=r
+//@  |             ensures *r == self.0@[index.0 as int],
+//@end
+impl<T> vstd::std_specs::core::IndexSpecImpl<NonTermIndex> for NonTermVec<T> {
+    open spec fn index_req(&self, index: &NonTermIndex) -> bool { index.0 < self.0@.len() }
+}
+//@impl NTI /^impl < T > Index < NonTermIndex > for NonTermVec < T >/
+//@  type Output
+//@  fn index ret=r
+//@  |             ensures *r == self.0@[index.0 as int],
+//@end
+
+//@type TBL Follow
+//@struct TBL LRState fields=grammar,items
+//@end
+
+/// the content of an item's follow cell (RefCell<Follow>) -- read, never written, by the closure range
+uninterp spec fn follow_of(item: &LRItem) -> Set<SymbolIndex>;
+/// the items an iterator of references yields
+pub uninterp spec fn ref_items<I, T>(iter: I) -> Set<T>;
+
+//@allow assume_specification RefCell::new stores its argument (std dependency), stated on LRItem::with_follow's result through follow_of
+//@allow assume_specification <BTreeSet<T> as Extend<&T>>::extend adds exactly the items its argument yields (std dependency)
+//@allow assume_specification BTreeSet::clone returns an equal set (std dependency)
+pub uninterp spec fn cell_content<T>(c: &RefCell<T>) -> T;
+pub assume_specification<T> [RefCell::<T>::new] (v: T) -> (c: RefCell<T>)
+    ensures cell_content(&c) == v;
+broadcast axiom fn axiom_follow_of(item: &LRItem)
+    ensures #[trigger] follow_of(item) == cell_content(&item.follow)@;
+pub assume_specification<'a, T: 'a + Ord + Copy, A: Allocator + Clone, I: IntoIterator<Item = &'a T>> [ <BTreeSet<T, A> as Extend<&'a T>>::extend::<I> ] (s: &mut BTreeSet<T, A>, iter: I)
+    ensures vstd::std_specs::btree::key_obeys_cmp_spec::<T>() ==> final(s)@ == old(s)@.union(ref_items::<I, T>(iter));
+
+//@impl GRM /^impl Grammar/ has=production_len
+//@  fn production_len ret=r
+//@  |         requires prod.0 < self.productions.0@.len(),
+//@  |         ensures r == self.productions.0@[prod.0 as int].rhs@.len(),
+//@  fn production_rhs_symbols ret=r xbody
+//@  |         requires prod.0 < self.productions.0@.len(),
+//@  |         ensures r@ == rhs_syms(&self.productions.0@[prod.0 as int]), r@.len() == self.productions.0@[prod.0 as int].rhs@.len(),
+//@end
+
+//@allow external_body LRItem::symbol_at_position (`?` on get(..), res_symbol which panics on an unresolved symbol): result stated through rhs_syms, ASSUMED
+//@impl TBL /^impl LRItem/ has=with_follow
+//@  fn with_follow ret=r
+//@  |         requires prod.0 < grammar.productions.0@.len(),
+//@  |         ensures r.prod == prod, r.position == 0, r.rn_len == rn_len, // [C01]
+//@  |             r.prod_len == grammar.productions.0@[prod.0 as int].rhs@.len(), // [C01]
+//@  |             follow_of(&r) == follow@, // [C01]
+//@  before 1 "LRItem {"
+//@  |         broadcast use axiom_follow_of;
+//@  fn symbol_at_position ret=r xbody
+//@  |         ensures r == (if self.prod.0 < grammar.productions.0@.len() && self.position < rhs_syms(&grammar.productions.0@[self.prod.0 as int]).len() {
+//@  |                 Some(rhs_syms(&grammar.productions.0@[self.prod.0 as int])[self.position as int]) } else { None::<SymbolIndex> }),
+//@end
+
+/// The LR(1) closure lookahead.  For an item [A -> alpha . B beta, L] the items [B -> . gamma, L'] it contributes carry
+/// L' = FIRST(beta L) = (FIRST(beta) \ {EMPTY}) u (L if EMPTY in FIRST(beta)), with FIRST(eps) = {EMPTY} -- so L' = L when
+/// beta is empty.  `pos` is the dot position, `syms` the right-hand side, `l` the item's own lookahead set.
+pub open spec fn closure_follow(fs: Seq<Set<SymbolIndex>>, syms: Seq<SymbolIndex>, pos: int, l: Set<SymbolIndex>, e: SymbolIndex) -> Set<SymbolIndex> {
+    let f = first_seq(fs, syms.skip(pos + 1), e);
+    if f.contains(e) { f.remove(e).union(l) } else { f }
+}
+
+/// what the closure range may assume about the state it works on (established by calc_states / the grammar builder; not proved here)
+spec fn closure_pre(st: &LRState, fs: &FirstSets, rn: &Option<ProdVec<usize>>) -> bool {
+    let g = st.grammar;
+    &&& grammar_wf(g)
+    &&& fs.0@.len() == nsym(g)
+    &&& (rn matches Some(v) ==> v.0@.len() == g.productions.0@.len())
+    &&& forall|i: int| 0 <= i < st.items.0@.len() ==> (#[trigger] st.items.0@[i]).prod.0 < g.productions.0@.len() && st.items.0@[i].position < usize::MAX
+    &&& forall|n: int, k: int| 0 <= n < g.nonterminals.0@.len() && 0 <= k < g.nonterminals.0@[n].productions@.len()
+            ==> (#[trigger] g.nonterminals.0@[n].productions@[k]).0 < g.productions.0@.len()
+    &&& forall|p: int| 0 <= p < g.productions.0@.len() ==> rhs_syms(&g.productions.0@[p]).len() == (#[trigger] g.productions.0@[p]).rhs@.len()
+}
+
+//@lift CLB closure_block
+//@allow external_body xexpr_follow_iter: the expression `item.follow.borrow().iter()` (RefCell::borrow + Deref of std::cell::Ref + BTreeSet::iter; Verus accepts no specification for Ref's Deref impl) moved verbatim into an external function; ASSUMED: it yields exactly the follow set of the item
+//@impl CLB /^impl < 'g > LRState < 'g >/
+//@  fn closure_block allclosures attr=verifier::loop_isolation(false)
+//@  |         requires closure_pre(self, first_sets, prod_rn_lengths),
+//@  xexpr_all xexpr_follow_iter(item) = item.follow.borrow().iter()
+//@  before 1 "for item in &self.items {"
+//@  |             proof { lemma_symbol_index_is_a_btree_key(); }
+//@  |             let ghost g = self.grammar;
+//@  |             let ghost fs = fs_view(first_sets);
+//@  |             let ghost e = g.empty_index;
+//@  loop 1 iter=it
+//@  |                 invariant
+//@  |                     it.seq().len() == self.items.0@.len(),
+//@  |                     forall|i: int| 0 <= i < it.seq().len() ==> *it.seq()[i] == self.items.0@[i],
+//@  after 1 "for item in &self.items {"
+//@  |                 proof { assert(*item == self.items.0@[it.index()]); }
+//@  |                 let ghost syms = rhs_syms(&g.productions.0@[item.prod.0 as int]);
+//@  |                 let ghost want = closure_follow(fs, syms, item.position as int, follow_of(item), e);
+//@  before 1 "// Get all productions of the current non-terminal and"
+//@  |                         // [C01] "a lookahead lost in closure": the follow set handed to every new item is FIRST(beta L)
+//@  |                         assert(new_follow@ =~= want); // [C01]
+//@  loop 2 iter=it2
+//@  |                             invariant
+//@  |                                 it2.seq().unref() =~= g.nonterminals.0@[nonterm.0 as int].productions@,
+//@  |                                 new_follow@ == want,
+//@  |                                 // [C01] the new items are the productions of the non-terminal right of the dot
+//@  |                                 item.position < syms.len() && nonterm.0 + nterm(g) == syms[item.position as int].0, // [C01]
+//@  cspec_text |p|p[*prod]
+//@  |  -> (r: usize) requires p.0@.len() == g.productions.0@.len() && prod.0 < g.productions.0@.len() ensures r == p.0@[prod.0 as int]
+//@  before 1 "new_items.insert(LRItem::with_follow("
+//@  |                             proof { assert(*prod == g.nonterminals.0@[nonterm.0 as int].productions@[it2.index()]); }
+//@end
+//@xexprfn xexpr_follow_iter nobody
+//@  | fn xexpr_follow_iter<'a>(item: &'a LRItem) -> (r: BTreeSetIter<'a, SymbolIndex>)
+//@  |     ensures ref_items::<BTreeSetIter<'a, SymbolIndex>, SymbolIndex>(r) == follow_of(item),
 //@end
 
 // ---- C03: right-nulled lengths ---------------------------------------------------------------------------------------
